@@ -32,6 +32,11 @@ func NewHandler(k keeper.Keeper) sdk.Handler {
 }
 
 func handleMsgChangeParam(ctx sdk.Ctx, msg types.MsgChangeParam, k keeper.Keeper) sdk.Result {
+	// the upgrade record is written by the upgrade message only: written as a plain parameter it
+	// replaces the scheduled features instead of merging them and moves none of the node's switches
+	if msg.ParamKey == types.NewACLKey(ModuleName, string(types.UpgradeKey)) {
+		return types.ErrUnauthorizedParamChange(ModuleName, msg.FromAddress, msg.ParamKey).Result()
+	}
 	return k.ModifyParam(ctx, msg.ParamKey, msg.ParamVal, msg.FromAddress)
 }
 
